@@ -9,4 +9,8 @@ export GOFLAGS=-mod=mod GOPROXY=off GOSUMDB=off GOTOOLCHAIN=local CGO_ENABLED=1
 mkdir -p bin evidence replays
 ( cd simrt && [ -f go.sum ] || cp /repo/pkg/go/go.sum go.sum )
 ( cd tools && go build -o ../bin/instrument ./instrument && go build -o ../bin/driver ./driver )
+# self-tests of the simulator's own primitives (cooperative channels; discrete-event
+# clock, timers, sync.Cond, simulated pool, tape-ordered select): seeded schedules,
+# each executed twice, outcomes and fingerprints must agree
+( cd simrt && GOMAXPROCS=1 go run ./internal/chanselftest && GOMAXPROCS=1 go run ./internal/timeselftest )
 ./bin/driver selftest
